@@ -116,7 +116,7 @@ def recoverCoeffs (bytes t : Nat) (shares : List (Nat × List Nat)) : Array (Arr
       (Array.replicate t 0)
     acc.extract 1 t
 
-def rdOf (t : Nat) (cs : Array (Array Nat)) : Nat → Nat := fun k =>
+@[noinline] def rdOf (t : Nat) (cs : Array (Array Nat)) : Nat → Nat := fun k =>
   if t ≤ 1 then 0 else (cs.getD (k / (t - 1)) #[]).getD (k % (t - 1)) 0
 
 /-! ### corruption of (manifest, replica), same grammar as the harness -/
@@ -251,7 +251,10 @@ def stepStore (st : St) (idTok payloadTok ttlTok : String) (impl : Option String
     let keyN := if impl.isSome && shardsOk then ShamirMonitor.specReconstruct 32 t implShards else List.replicate 32 1
     let key := ofNats keyN
     let excluded := isZeroKey key
-    let rd := if impl.isSome && shardsOk then rdOf t (recoverCoeffs 32 t implShards) else fun _ => 0
+    -- the coefficient table is a value computed once (a conditional of function type would be eta-expanded by the compiler
+    -- and the recovery re-run on every draw)
+    let coeffs : Array (Array Nat) := if impl.isSome && shardsOk then recoverCoeffs 32 t implShards else #[]
+    let rd := rdOf t coeffs
     if excluded then
       -- excluded point: the key actually used is hidden inside a temporary CryptoManager; echo, do not judge
       let m : Manifest := { chunkId := id, chunkHash := (bytesOfHex (field fs "hash")).getD [], nonce := nonce, threshold := t,
